@@ -58,9 +58,11 @@ def drawable_pairs(n: int) -> list[tuple[int, int]]:
 
 @st.composite
 def sym_matrix(draw: Any, algo: str, max_n: int = 14) -> dict:
+    cap = None
+    if algo == "fea":  # size of the frequency table; big tables are costly
+        cap = draw(st.sampled_from([1000, 70000, 70000, FEA_MAX_UPPER]))
     return draw(gen_mat.tsp_matrix(
-        min_n=4, max_n=max_n, kinds=("sym",),
-        max_upper=FEA_MAX_UPPER if algo == "fea" else None))
+        min_n=4, max_n=max_n, kinds=("sym",), max_upper=cap))
 
 
 @st.composite
@@ -139,14 +141,16 @@ def check_kernel(ctx: Ctx, case: dict) -> None:
         require(0 <= y <= ub and 0 <= y2 <= ub,
                 lambda: f"lengths {y}, {y2} outside the table 0..{ub}")
         h = np.zeros(ub + 1, dtype=np.int64)
-        for k, v in case["h"]:
+        before = {int(k): int(v) for k, v in case["h"] if v != 0}
+        for k, v in before.items():
             h[k] = v
-        h0 = h.copy()
         ret = sut("rev_if_h_not_worse", rev_if_h_not_worse, np.int64(i),
                   np.int64(j), n, inst, h, x, y)
         want = {y: 2} if y == y2 else {y: 1, y2: 1}
-        delta = h - h0
-        got = {int(k): int(delta[k]) for k in np.flatnonzero(delta)}
+        now = {int(k): int(h[k]) for k in np.flatnonzero(h)}
+        got = {k: now.get(k, 0) - before.get(k, 0)
+               for k in sorted(set(now) | set(before))
+               if now.get(k, 0) != before.get(k, 0)}
         require(got == want, lambda: f"table changed by {got}, expected "
                 f"{want} (y={y}, candidate={y2}, table size {ub + 1})")
         accept = int(h[y2]) <= int(h[y])
@@ -314,5 +318,5 @@ SUBS = {"kernel": check_kernel, "run": check_run}
 
 def run(ctx: Ctx) -> None:
     ctx.given("kernel", kernel_cases(), check_kernel, quick=3000,
-              thorough=16 * 20000)
+              thorough=16 * 12000)
     ctx.given("run", run_cases(), check_run, quick=300, thorough=16 * 2000)
